@@ -686,7 +686,32 @@ func (p *Params) KeyGenParts(xi []byte) (pk, sk []byte, kp *KeyParts) {
 	} else {
 		seed = H(128, xi)
 	}
-	kp = &KeyParts{Rho: seed[:32], RhoPrime: seed[32:96], Key: seed[96:128]}
+	return p.KeyFromSeeds(seed[:32], seed[32:96], seed[96:128])
+}
+
+// BoundaryRho searches the matrix seeds rho_k = H(tag || k)[:32], k = 0, 1, ...
+// for one whose ExpandA stream contains, for some entry of the matrix, a
+// 23-bit candidate equal to q before the polynomial is complete (about one
+// seed in 1100 for a 6x5 matrix).  It returns the seed and the entry.
+func (p *Params) BoundaryRho(tag []byte, maxTries int) (rho []byte, i, j int, ok bool) {
+	for k := 0; k < maxTries; k++ {
+		rho = H(32, tag, []byte{byte(k), byte(k >> 8), byte(k >> 16)})
+		for i = 0; i < p.K; i++ {
+			for j = 0; j < p.L; j++ {
+				if _, sawQ, _, _ := RejNTTPolyBoundary(append(append([]byte{}, rho...), byte(j), byte(i))); sawQ {
+					return rho, i, j, true
+				}
+			}
+		}
+	}
+	return nil, 0, 0, false
+}
+
+// KeyFromSeeds runs key generation from the three seeds that KeyGen_internal
+// derives from xi: the matrix seed rho can be chosen (the private key encodes
+// it and every implementation re-expands A from it).
+func (p *Params) KeyFromSeeds(rho, rhoPrime, key []byte) (pk, sk []byte, kp *KeyParts) {
+	kp = &KeyParts{Rho: rho, RhoPrime: rhoPrime, Key: key}
 	kp.A = p.ExpandA(kp.Rho)
 	kp.S1, kp.S2 = p.ExpandS(kp.RhoPrime)
 	s1h := make([]Poly, p.L)
